@@ -274,6 +274,7 @@ class PoolRun:
         self.script, self.labels = script, labels
         self.rc = None
         self.vals, self.meta, self.capi, self.laws, self.summary, self.err = {}, {}, {}, [], None, ""
+        self.adrs = {}
 
 
 def run_pool(hx, script, labels, timeout=1500):
@@ -294,6 +295,8 @@ def run_pool(hx, script, labels, timeout=1500):
             pr.meta[int(t[1])] = dict(zip(t[2::2], t[3::2]))
         elif t[0] == "capi":
             pr.capi[int(t[1])] = t[2]
+        elif t[0] == "adr":
+            pr.adrs[int(t[1])] = t[2:]
         elif t[0] == "law":
             pr.laws.append(line)
         elif t[0] == "summary":
@@ -613,6 +616,31 @@ def run(ctx, scripts=None):
                             q = next((q for q in range(len(aset)) if q >= len(mrow) or irow[q] != mrow[q]), 0)
                             diffs.append({"op": "equals/compare (model with abstracts: janet_compare_abstract)", "a": info(i), "b": info(aset[q]),
                                           "impl": irow[q], "model": mrow[q] if q < len(mrow) else "?"})
+            # ---- janet_equals WITH its pointer short-cuts (`t1 == t2`, `s1 == s2`; Value/PtrShortcut.lean `equalsP` on values that carry
+            #      the addresses of their tuple / struct objects): every value holding NaN (the one place where the short-cut is
+            #      observable: a tuple holding NaN is `=` to ITSELF, and to any tuple sharing the object that holds it) and every value
+            #      containing an abstract, and the `shared:` family (values sharing tuple / struct objects: the short-cut fires in the
+            #      middle of a traversal); pairs where BOTH sides hold NaN are no longer masked here
+            pset = [i for i in range(n) if i in pr.adrs and (nan[i] or pr.meta[i].get("amodel") == "1" or (i < len(labels) and labels[i][0].startswith("shared:")))]
+            if pset and len(mout) == len(lines):
+                plines = ["pval %d %d %s %s" % (p, len(pr.adrs[i]), " ".join(pr.adrs[i]), " ".join(pr.vals[i])) for p, i in enumerate(pset)]
+                plines = [" ".join(l.split()) for l in plines] + ["prow %d" % p for p in range(len(pset))]
+                pout = ctx.model(plines, exe=exe)
+                tot["model_lines"] += len(plines)
+                tot["pointer_shortcut_pairs"] = tot.get("pointer_shortcut_pairs", 0) + len(pset) ** 2
+                nn = [i for i in pset if nan[i]]
+                tot["pointer_shortcut_pairs_both_nan"] = tot.get("pointer_shortcut_pairs_both_nan", 0) + len(nn) ** 2
+                if len(pout) != len(plines) or any(o != "ok" for o in pout[:len(pset)]):
+                    diffs.append({"op": "driver (pval/prow)", "impl": "%d lines" % len(plines), "model": "%d lines, first %r" % (len(pout), [o for o in pout[:len(pset)] if o != "ok"][:1])})
+                else:
+                    for p, i in enumerate(pset):
+                        irow = "".join("e" if pr.capi[i][j] in "=LG" else "n" for j in pset)
+                        mrow = pout[len(pset) + p]
+                        tot["pointer_shortcut_visible"] = tot.get("pointer_shortcut_visible", 0) + sum(1 for q, j in enumerate(pset) if nan[i] and nan[j] and irow[q] == "e")
+                        if irow != mrow:
+                            q = next((q for q in range(len(pset)) if q >= len(mrow) or irow[q] != mrow[q]), 0)
+                            diffs.append({"op": "janet_equals with pointer short-cuts (equalsP)", "a": info(i), "b": info(pset[q]),
+                                          "impl": irow[q], "model": mrow[q] if q < len(mrow) else "?"})
             tot["model_diffs"] += len(diffs)
             if diffs:
                 diffs_all += diffs[:5]
@@ -829,6 +857,9 @@ def run(ctx, scripts=None):
         "abstract_types_with_compare_or_hash_hooks": [list(h) for h in hooked],
         "values_containing_abstracts_through_model": tot.get("abstract_values_in_model", 0), "abstract_model_pairs": tot.get("abstract_model_pairs", 0),
         "abstract_type_histogram_through_model": dict(sorted(abs_types.items())),
+        "equals_with_pointer_shortcuts_pairs_through_model": tot.get("pointer_shortcut_pairs", 0),
+        "equals_with_pointer_shortcuts_pairs_both_holding_nan": tot.get("pointer_shortcut_pairs_both_nan", 0),
+        "equals_true_only_through_the_pointer_shortcut": tot.get("pointer_shortcut_visible", 0),
         "content_classes": tot["classes"], "content_classes_with_several_constructions": tot["multi_classes"],
         "model_lines": tot["model_lines"], "model_diffs": tot["model_diffs"], "values_holding_nan_through_model": tot.get("nan_values_in_model", 0),
         "string_loop_pairs_through_model": tot.get("string_loop_pairs", 0),
@@ -845,11 +876,14 @@ def run(ctx, scripts=None):
         tot["values"], tot["pairs"], tot["triples"], tot["vmcalls"], tot["classes"], tot["multi_classes"], tot["model_lines"], tot["model_diffs"], tot["layouts"], sym_summary))
     ctx.say("layout scenario %s model rebuilds %d; literal-shape forms %d" % (lay_summary, lay_model, tot["litforms"]))
     ctx.say("values containing abstracts through the model: %d (pairs %d) types %s" % (tot.get("abstract_values_in_model", 0), tot.get("abstract_model_pairs", 0), dict(sorted(abs_types.items()))))
+    ctx.say("janet_equals with pointer short-cuts through the model: %d pairs (%d with NaN on both sides, %d of them `=` only through the short-cut)" % (
+        tot.get("pointer_shortcut_pairs", 0), tot.get("pointer_shortcut_pairs_both_nan", 0), tot.get("pointer_shortcut_visible", 0)))
     ctx.say("duplicate-key scenario %s model lines %d" % (dup_summary, dup_model))
     ctx.say("symbol-cache histories %s through model: %d histories, %d ops" % (symhist_summary, sh["model_histories"], sh["model_ops"]))
     return ctx.finish("proof", cov, assumptions=[
         "NaN is excluded from the laws (property text) but is part of the model type: laws proved on the NaN-free values of JVal F64, NaN keys refused by struct put (proved), "
-        "hash / compare / equals of values holding NaN compared with the implementation (equals only when at most one side holds NaN: the C's pointer short-cut is not modelled); "
+        "hash / compare / equals of values holding NaN compared with the implementation (content model: equals only when at most one side holds NaN; the model WITH the C's pointer "
+        "short-cuts, equalsP on addressed values, on all pairs incl. both sides holding NaN); "
         "abstract values: modelled as addresses read through a memory (type pointer, payload, hooks per type); the laws are proved GIVEN lawful hooks (LawfulAbstract), the hooks "
         "of inttypes.c are proved lawful from their regenerated shapes, every other abstract type of src/core has no compare / hash hook (translator scan of all initialisers); "
         "the model assumes a hook reads only the payload at the address it is given",
